@@ -89,4 +89,16 @@ CHECKS = {
         "note": "Trusted: the oracle; that the yield points sit where a get-or-compute-then-insert cache can go wrong; TSan sees dashmap's locks (std instrumented through -Zbuild-std).",
         "design_ref": "DESIGN.md §4 C14, §2 H2",
     },
+    "C06": {
+        "technique": "timestamp monitor: (instant, offset, zone) triple computed by the harness from chrono-tz, compared after every constructor and codec path, exhaustively at all offset transitions of all unambiguous zones and over the RFC 3339 offset sweep",
+        "level": "Complete for 554 zones x ~29,000 transitions 1980-2060 x 8 instants (x 10 fraction settings in thorough) x 11 paths, and 105 offsets x 50 instants.",
+        "note": "Trusted: chrono-tz zone data and chrono's FixedOffset arithmetic; the harness's own civil-date conversion.",
+        "design_ref": "DESIGN.md §4 C06, Appendix C",
+    },
+    "C11": {
+        "technique": "fixed-point monitor over accepted texts (strict model equality of first and second decode), reader-family differential, and a byte-counting reader that bounds the lazy iterator's read-ahead at every yield",
+        "level": "Held on ~4e5 (quick) / ~8e6 (thorough) accepted texts and mutants, both corpus files whole; laziness bound checked at every row of 5e3 (quick) / 1e5 (thorough) generated grids.",
+        "note": "Trusted: harness value model; the reference writer for generating texts; the look-ahead slack of 16 bytes.",
+        "design_ref": "DESIGN.md §4 C11",
+    },
 }
